@@ -287,10 +287,37 @@ def oracle_lifecycle(src, ops, tail):
     return None
 
 
+def oracle_node_handlers(src, ops):
+    """Incr::on_update handlers (the same OnUpdateHandler as a subscription's, attached to the node): per handler the
+    first thing heard is never Changed, nothing follows Invalidated, Unnecessary is not repeated, Changed follows only
+    Initialised or Changed, and callbacks only run at the end of a stabilise."""
+    heard = {}
+    for op in ops:
+        for e in op.events:
+            if ev_kind(e) != "nodeupd":
+                continue
+            if not src[op.idx].startswith("stabilise"):
+                return f"op {op.idx} `{src[op.idx]}`: node handler callback outside stabilise: {e}"
+            f = dict(x.split("=") for x in e.split()[1:4])
+            key, kind = (f["n"], f["ix"]), e.split()[4]
+            h = heard.setdefault(key, [])
+            if not h and kind == "Changed":
+                return f"op {op.idx}: the first thing a node handler hears is Changed: {e}"
+            if h and h[-1] == "Invalidated":
+                return f"op {op.idx}: a node handler hears something after Invalidated: {e}"
+            if h and h[-1] == "Unnecessary" and kind in ("Unnecessary", "Changed"):
+                return f"op {op.idx}: after Unnecessary a node handler hears {kind}: {e}"
+            h.append(kind)
+    return None
+
+
 def oracle_subscriptions(src, ops, tail):
     """C09 on observers of top-level nodes with the default cutoff: per subscription the exact sequence
     Initialised(v) once, Changed(v) exactly when the value differs from the previous round, values equal
     to what the observer reads."""
+    why = oracle_node_handlers(src, ops)
+    if why:
+        return why
     ref = Ref()
     got = {}           # sub index -> list of (round, kind, value)
     rnd = 0
@@ -535,6 +562,7 @@ def oracle_audit(src, ops, tail):
     ref = Ref()
     rank_of_handle = {}
     obs_node = []
+    own_handlers = {}
     poisoned = False
     for op in ops:
         line = src[op.idx]
@@ -545,6 +573,9 @@ def oracle_audit(src, ops, tail):
             obs_node.append(rank_of_handle.get(parsed[1]))
         elif parsed[0] == "observeexport":
             obs_node.append(None)
+        elif parsed[0] == "onupdate" and op.result.startswith("ok"):
+            r_ = rank_of_handle.get(parsed[1])
+            own_handlers[r_] = own_handlers.get(r_, 0) + 1       # Incr::on_update: handlers on the node itself
         if op.result.startswith("panic"):
             poisoned = True
         if poisoned or not op.nodes:
@@ -552,9 +583,9 @@ def oracle_audit(src, ops, tail):
         why = audit(op)
         if why:
             return f"after op {op.idx} `{line}`: {why}"
-        # handler counts: node.num_on_update_handlers = handlers of its in-use observers
-        if all(r is not None for r in obs_node):
-            per_node = {}
+        # handler counts: node.num_on_update_handlers = its own handlers + handlers of its in-use observers
+        if all(r is not None for r in obs_node) and None not in own_handlers:
+            per_node = dict(own_handlers)
             for i, o in op.obs.items():
                 if o["state"] in ("InUse", "Disallowed") and i < len(obs_node):
                     per_node[obs_node[i]] = per_node.get(obs_node[i], 0) + o["handlers"]
@@ -567,7 +598,7 @@ def oracle_audit(src, ops, tail):
                     continue
                 if n["nh"] != per_node.get(r, 0):
                     return (f"after op {op.idx} `{line}`: node {r} has num_on_update_handlers = {n['nh']} "
-                            f"but {per_node.get(r, 0)} handlers are registered on its linked observers")
+                            f"but {per_node.get(r, 0)} handlers are registered on it and on its linked observers")
         if parsed[0] == "stabilise" and op.result.startswith("ok"):
             for r, n in op.nodes.items():
                 if n is not None and necessary(n) and n["valid"] and n["val"] == "-":
